@@ -6,10 +6,10 @@ import graphs as G, tablecorr as TC
 OP_IGAM = 9
 
 
-def gen_sample_case(r, emax=6, Ds=(1, 2, 3, 4, 5, 6), massless_share=0.3, stability=None, fams=None, zero_shift_share=0.15):
+def gen_sample_case(r, emax=6, Ds=(1, 2, 3, 4, 5, 6), massless_share=0.3, stability=None, fams=None, zero_shift_share=0.15, ext_all=False, all_masses=False):
     """accepted connected graph with >= 1 loop, a cycle-basis signature, a point, edge data"""
     for _ in range(50):
-        g = G.gen_accepted(r, emax=emax, connected=True, Ds=Ds, fams=fams)
+        g = G.gen_accepted(r, emax=emax, connected=True, Ds=Ds, fams=fams, ext_all=ext_all)
         pairs = [(e[0], e[1]) for e in g["edges"]]
         E = len(pairs)
         L = G.loop_number(pairs, list(range(E)))
@@ -27,7 +27,7 @@ def gen_sample_case(r, emax=6, Ds=(1, 2, 3, 4, 5, 6), massless_share=0.3, stabil
     zero_shifts = r.chance(zero_shift_share)
     for (a, b, m, w) in g["edges"]:
         mass = None
-        if m and not r.chance(0.1):
+        if m and (all_masses or not r.chance(0.1)):
             mass = 0.1 + 2.0 * r.unit()
         sh = [0.0] * D if zero_shifts else [round((r.unit() - 0.5) * 4, 3) for _ in range(D)]
         ed.append(dict(mass=(f2b(mass) if mass is not None else None), shift=[f2b(x) for x in sh]))
